@@ -42,6 +42,11 @@ CLAIMS["C12"] = ("7.12", "Theorems: for EVERY K>=1 (no width bound) the bit patt
 CLAIMS["C07"] = ("7.7", "Both ties. Translator: the message schema is regenerated on every run from proto/*.proto (own proto3 reader cross-checked against protoc's descriptor set), from the #[prost] attributes / Rust types / enums of ommx.v1.rs and from the serialized descriptors in *_pb2.py, as three closed Coq terms; the obligations schemas_agree (rust = proto = python in field numbers, names, types, labels, enum values), schema_wf and schema_supported are re-proved each run. Hand-written model + theorems (closed under the global context, coqchk: no axioms): varint and record round trip; codec_roundtrip, codec_unknown_fields, codec_unset_oneof for EVERY well-formed schema, hence the regenerated one; comparator soundness. Correspondence: prost and protoc agree with the model on generated values of all 31 message types and 5 enums (every field set/unset, maps, oneofs, extremes, unknown fields, unpacked and merged encodings, legacy fields, the stored artifact) and on content by field name via prost Debug. When an obligation fails the check searches a concrete failing value (else reports no-failing-input-found).",
          "Python: static schema only (no protobuf runtime in the sandbox). Not proved: decoding of arbitrary non-model encodings (codec_decode_any_encoding; exercised by the protoc / unpacked / merge streams). Trusted: translate_schema.py (self-cross-checked against protoc), Codec.v as a model of prost, tools/gen/wire.py (text printer, Debug reader), protoc 3.21.12. -0.0 is identified with +0.0 for prost re-encodings only, and counted.")
 
+CLAIMS["C06"] = ("7.6", "proof (partial): theorems on the compressed sample representation — the value stored by Samples::map for sample id k is the function of the state stored for k for any partition into entries; a table grouped by value returns for every id the value it was given (grouping independence) — on an executable model of evaluate_samples / SampleSet::get / Samples / SampledValues. The composite statement (get k of the evaluated set = single evaluation) is not yet one theorem: the runner checks it on every case at model level (clause 'MODEL:') and against the SDK: for every submitted id, SampleSet::get(id) and Instance::evaluate(state_id) are both judged against the C05 model's single evaluation (objective, per-constraint values and metadata, both flags, values of defined variables), key sets of all tables, best_feasible*.",
+         "In-bound states only (evaluate_samples does not check bounds; evaluate does). The 'fix:' commit bb6a295 made evaluate_samples complete states that omit unused variables.")
+CLAIMS["C15"] = ("7.15", "Theorems: as_minimization yields sense minimise, leaves variables/constraints/removed constraints/dependencies untouched, is the identity on minimisation problems, negates the objective otherwise, is idempotent, and a maximisation problem and its conversion rank all assignments identically; best(ids) returns a candidate id that no candidate strictly beats under the set's sense and fails exactly when there is no candidate; candidates are exactly the ids flagged true in the table that is read, which is the current field or the older field when feasible_relaxed is empty; the runner's checker (any unbeaten candidate) is exactly that property. Correspondence: as_min on both senses; best on 1-8 samples with ties, both senses, current and legacy field usage, directly and after an encode/decode round trip (thorough: all 2^n x 2^n feasibility patterns, n<=4).",
+         "The code also negates for an unspecified sense (outside 'either sense'); modelled as the code does.")
+
 PENDING = {
 }
 
